@@ -29,8 +29,6 @@ abbrev bool : Ty := lf .bool
 /-- `[][]byte` with a var-uint / uint64 count, built with `append` -/
 def vbListV : Ty := .list { cnt := .varuint } vb
 def vbList64 : Ty := .list { cnt := .u64 } vb
-/-- `make([][]byte, l)` with the wire var-uint count (bounded by the fix: see `maxPrealloc`) -/
-def MAX_PREALLOC : Nat := 2 ^ 32
 
 structure Rec where
   name : String
@@ -66,7 +64,7 @@ def registerSideChainParam : Ty := addrVar ⊗ vu ⊗ vu ⊗ str ⊗ .leaf .varu
 def chainidParam : Ty := vu ⊗ addrVar
 def registerRedeemParam : Ty := vu ⊗ vu ⊗ vb ⊗ vu ⊗ vb ⊗ vbListV
 def btcTxParamDetial : Ty := vu ⊗ vu ⊗ vu
-def btcTxParam : Ty := vb ⊗ vu ⊗ .list { cnt := .varuint, alloc := .prealloc 24 } vb ⊗ btcTxParamDetial
+def btcTxParam : Ty := vb ⊗ vu ⊗ vbListV ⊗ btcTxParamDetial
 def assetMap : Ty := .map .varuint .varuint .none vb .desc
 def registerAssetParam : Ty := addr ⊗ vu ⊗ assetMap ⊗ assetMap
 def assetBind : Ty := assetMap ⊗ assetMap
@@ -76,11 +74,11 @@ def bindSignInfo : Ty := .map .varuint .varbytes .none vb .desc
 def contractBinded : Ty := vb ⊗ u64
 def fee : Ty := u64 ⊗ big
 def feeInfo : Ty := u32 ⊗ .map .varuint (.fixed 20) .none big .descRev
-def rippleExtraInfo : Ty := addr ⊗ u64 ⊗ u64 ⊗ u64 ⊗ .list { cnt := .varuint, alloc := .prealloc 24 } vb ⊗ big
+def rippleExtraInfo : Ty := addr ⊗ u64 ⊗ u64 ⊗ u64 ⊗ vbListV ⊗ big
 -- governance/relayer_manager/param.go, neo3_state_manager/param.go
 def relayerListParam : Ty := .list { cnt := .varuint } addrVar ⊗ addrVar
 def approveRelayerParam : Ty := vu ⊗ addrVar
-def stateValidatorListParam : Ty := .list { cnt := .varuint, alloc := .prealloc 16 } str ⊗ addrVar
+def stateValidatorListParam : Ty := .list { cnt := .varuint } str ⊗ addrVar
 def approveStateValidatorParam : Ty := vu ⊗ addrVar
 -- governance/signature_manager/states.go, cross_chain_manager/consensus_vote/states.go
 def sigInfo : Ty := bool ⊗ .map .u64 .varbytes .none vb .desc
